@@ -102,10 +102,18 @@ def parse_rats(tok):
 # ----------------------------------------------------------------------------------------
 # Lean side
 # ----------------------------------------------------------------------------------------
-def lean_build(log):
-    """(Re)build library + driver. Returns (ok, output)."""
+def lean_build(log, prop_files=None):
+    """(Re)build the property's own modules (with everything they import) + the driver. Returns (ok, output).
+    Only the property's modules: a theorem of another property that no longer checks (e.g. C20's table regenerated from a tree
+    with a dangling reference) is that property's verdict, not this one's."""
     t0 = time.time()
-    p = subprocess.run(['lake', 'build', 'Knee', 'driver'], cwd=LEAN_DIR, capture_output=True, text=True)
+    if prop_files:
+        files = [prop_files] if isinstance(prop_files, str) else list(prop_files)
+        targets = [pf[:-5].replace('/', '.') for pf in files]
+    else:
+        targets = ['Knee']
+    log['lean_build_targets'] = targets + ['driver']
+    p = subprocess.run(['lake', 'build'] + targets + ['driver'], cwd=LEAN_DIR, capture_output=True, text=True)
     log['lean_build_s'] = round(time.time() - t0, 2)
     return p.returncode == 0, (p.stdout + p.stderr)
 
@@ -476,11 +484,13 @@ def write_evidence(ctx, audit, level='proof', extra_cov=None, assumptions=None, 
         cov.update(extra_cov)
     ev = dict(property_id=ctx.prop_id, tier=ctx.tier, seed=ctx.seed, level=level, coverage=cov,
               assumptions=assumptions or [], wall_s=round(ctx.elapsed(), 2), violations=violations)
-    os.makedirs(os.path.join(VERIF, 'evidence'), exist_ok=True)
-    tmp = os.path.join(VERIF, 'evidence', ctx.prop_id + '.json.tmp')
+    # VERIF_EVIDENCE_DIR: scratch runs of the tools (seeded changes applied in a worktree) must not overwrite the evidence of the real tree
+    edir = os.environ.get('VERIF_EVIDENCE_DIR') or os.path.join(VERIF, 'evidence')
+    os.makedirs(edir, exist_ok=True)
+    tmp = os.path.join(edir, ctx.prop_id + '.json.%d.tmp' % os.getpid())
     with open(tmp, 'w') as f:
         json.dump(jsonable(ev), f, indent=1)
-    os.replace(tmp, os.path.join(VERIF, 'evidence', ctx.prop_id + '.json'))
+    os.replace(tmp, os.path.join(edir, ctx.prop_id + '.json'))
 
 
 def run_property(mod, prop_id, tier, seed, replay=None):
@@ -492,12 +502,12 @@ def run_property(mod, prop_id, tier, seed, replay=None):
         import_repo()
         if hasattr(mod, 'pre_build'):
             mod.pre_build(ctx)
-        ok, out = lean_build(ctx.log)
+        ok, out = lean_build(ctx.log, getattr(mod, 'PROP_FILES', mod.PROP_FILE))
         audit = dict(obligations=0, discharged=0, problems=[], theorems=[])
         if not ok:
             if hasattr(mod, 'on_build_failure'):
                 mod.on_build_failure(ctx, out)
-            ctx.fail('proof', 'lean-build', 'lake build Knee driver', {}, out[-3000:])
+            ctx.fail('proof', 'lean-build', 'lake build ' + ' '.join(ctx.log.get('lean_build_targets', [])), {}, out[-3000:])
         else:
             pfiles = getattr(mod, 'PROP_FILES', mod.PROP_FILE)
             audit = lean_audit(prop_id, pfiles)
